@@ -177,6 +177,29 @@ def interleaved_iterators(ctx):
                     ctx.fail("internal-error", f"{name}: {type(exc).__name__}: {exc}", case)
 
 
+def sparse_strings(ctx):
+    """JS files with many EMPTY string literals between a few one-character ones, and a never-closed quote at the end (the
+    splitter back-tracks): the string characters are far apart in the part list — every mask of 8 literals"""
+    import itertools
+    from . import c16
+    for mask in itertools.product((False, True), repeat=8):
+        data = b"".join(b'var v%d = "%s";\n' % (i, b"a" if m else b"") for i, m in enumerate(mask)) + b"// don't\n"
+        res = loaders.real_load("jsstr", data)
+        ctx.evaluations += 1
+        ctx.bump("sparse-strings")
+        case = dict(splitter="jsstr", data=common.enc_bytes(data))
+        if res[0] != "ok":
+            ctx.fail("original-altered", f"jsstr: load raised {res[1]} on {data!r}", case)
+            return
+        if strat.content(strat.fields(res[1])) != data:
+            ctx.fail("original-altered", f"jsstr: the loaded testcase writes {strat.content(strat.fields(res[1]))!r} for the file {data!r}", case)
+            return
+        got, want = c16.reducible_spans(res[1]), c16.spec_js(data)
+        if got != want:
+            ctx.fail("wrong-atoms-reducible", f"jsstr: the loader flags the byte ranges {got} of {data!r} reducible; string characters are {want}", case)
+            return
+
+
 def load_only(ctx, n):
     """every candidate is built from the loaded testcase: if loading alters the bytes (a splitter that drops or doubles text
     when it back-tracks), every tested file differs from the original in bytes that are not atoms.  Grammar-directed JS and
@@ -192,6 +215,13 @@ def load_only(ctx, n):
                     ctx.fail("original-altered", f"{kind}: the loaded testcase writes {strat.content(strat.fields(res[1]))!r} for the file {data!r}",
                              dict(splitter=kind, data=common.enc_bytes(data)))
                     return
+                # "every non-reducible part stays in place" starts with WHICH parts are reducible: string characters only
+                if res[0] == "ok" and kind == "jsstr" and b"DDBEGIN" not in data and b"DDEND" not in data:
+                    got, want = c16.reducible_spans(res[1]), c16.spec_js(data)
+                    if got != want:
+                        ctx.fail("wrong-atoms-reducible", f"jsstr: the loader flags the byte ranges {got} of {data!r} reducible; string characters are "
+                                 f"{want} — candidates would delete text outside strings", dict(splitter=kind, data=common.enc_bytes(data)))
+                        return
 
 
 def torn_writes(ctx):
@@ -252,6 +282,7 @@ def run(ctx) -> int:
     loaders_stream(ctx, 12 if ctx.thorough else 8)
     torn_writes(ctx)
     load_only(ctx, 1500 if ctx.thorough else 150)
+    sparse_strings(ctx)
     interleaved_iterators(ctx)
     special_cut_sets(ctx)
     return common.decide(ctx, proof, RULE, search=search)
